@@ -83,7 +83,10 @@ MStep(mm, e, idx) ==
                   THEN Flag(b4, "C03", "C03_ExactlyOnce", idx) ELSE b4
             judge == ~m.dirty /\ Len(m.arr) > 0 /\ m.lastFail = {} /\ Unfinished(m) = {}
         IN [m EXCEPT !.cur = e.n, !.curS = S, !.bad = b5,
+                     \* (only windows whose timing is determined by immediate submissions alone: every non-immediate
+                     \*  submission so far was already delivered before this call)
                      !.qj = IF ~m.flush /\ m.lastImm >= 0 /\ Unfinished(m) = {}
+                               /\ (\A i \in DOMAIN m.sub : ~m.sub[i].imm => ElemsOf(m, {i}) \subseteq m.okset)
                                /\ ~(\E w \in DOMAIN m.waits : m.waits[w].pend /\ m.waits[w].cancel)
                             THEN [on |-> TRUE, t |-> e.t, la |-> m.lastImm] ELSE [@ EXCEPT !.on = FALSE],
                      !.flush = FALSE,
